@@ -2084,7 +2084,10 @@ class SummarizedGatherResult:
         lD = {}
         lD["ident"] = query_info.query_name
         for rank in ranks:
-            lin_name = self.lineage.name_at_rank(rank)
+            # a LIN lineage popped to a higher position only knows the positions it has
+            lin_name = (
+                self.lineage.name_at_rank(rank) if rank in self.lineage.ranks else None
+            )
             if lin_name is None:
                 lin_name = ""
             lD[rank] = lin_name
